@@ -1,6 +1,11 @@
 package sim
 
-import "encoding/hex"
+import (
+	"encoding/hex"
+	"fmt"
+
+	sdk "github.com/cosmos/cosmos-sdk/types"
+)
 
 type counters struct {
 	c       map[string]int
@@ -20,3 +25,25 @@ func (k *counters) Counters() map[string]int { return k.c }
 func (k *counters) Samples() []string        { return k.samples }
 
 func hexDecode(s string) ([]byte, error) { return hex.DecodeString(s) }
+
+// probeCall runs a message-server call of a probe the way baseapp's runTx would: a panic inside the handler
+// is a refused message, not a crash of the simulator.
+func probeCall(f func() error) (err error) {
+	defer func() {
+		if r := recover(); r != nil {
+			err = fmt.Errorf("panic in handler: %v", r)
+		}
+	}()
+	return f()
+}
+
+// probeMsg delivers one message of a probe on ctx with transaction semantics: the handler runs on a branch of
+// ctx that is written back only if it returns without error or panic.
+func probeMsg(ctx sdk.Context, f func(ctx sdk.Context) error) error {
+	child, write := ctx.CacheContext()
+	err := probeCall(func() error { return f(child) })
+	if err == nil {
+		write()
+	}
+	return err
+}
